@@ -193,6 +193,21 @@ func c13Seeds() []c13Seed {
 		out = append(out, c13Seed{Handler: "carddav", BodyKind: "xml", NeedsXML: true, Req: harness.Req{Method: "REPORT", Path: "/u/c/k1/", Header: with(xmlH(), "Depth", d), Body: c13CardQuery}})
 		out = append(out, c13Seed{Handler: "carddav", BodyKind: "xml", NeedsXML: true, Req: harness.Req{Method: "REPORT", Path: "/u/c/k1/", Header: with(xmlH(), "Depth", d), Body: c13CardMultiget}})
 	}
+	// requests that report NO resource (an empty collection, a multiget of missing members, somebody else's
+	// principal, a level below an object): validation must not hang on the first reported resource
+	for _, kind := range []string{"caldav", "carddav"} {
+		query, multiget, ext := c13CalQuery, c13CalMultiget, ".ics"
+		if kind == "carddav" {
+			query, multiget, ext = c13CardQuery, c13CardMultiget, ".vcf"
+		}
+		out = append(out, c13Seed{Handler: kind, BodyKind: "xml", NeedsXML: true, Req: harness.Req{Method: "REPORT", Path: "/u/c/k2", Header: with(xmlH(), "Depth", "1"), Body: query}})
+		out = append(out, c13Seed{Handler: kind, BodyKind: "xml", NeedsXML: true, Req: harness.Req{Method: "REPORT", Path: "/u/c/k2", Header: with(xmlH(), "Depth", "1"), Body: strings.ReplaceAll(multiget, "/u/c/k1/o1"+ext, "/u/c/k2/nothing-here"+ext)}})
+		for _, p := range []string{"/v/", "/u/c/k1/o1" + ext + "/x/y"} {
+			for _, b := range []string{pfAllprop, pfProp} {
+				out = append(out, c13Seed{Handler: kind, Depth: true, BodyKind: "xml", Req: harness.Req{Method: "PROPFIND", Path: p, Body: b, Header: map[string]string{"Depth": "0", "Content-Type": "application/xml"}}})
+			}
+		}
+	}
 	// a multiget that names no resource at all
 	out = append(out, c13Seed{Handler: "caldav", BodyKind: "xml", NeedsXML: true, Req: harness.Req{Method: "REPORT", Path: "/u/c/k1/", Header: with(xmlH(), "Depth", "1"),
 		Body: `<?xml version="1.0"?><C:calendar-multiget xmlns:D="DAV:" xmlns:C="urn:ietf:params:xml:ns:caldav"><D:prop><D:getetag/><C:calendar-data><C:comp name="VCALENDAR"><C:allprop/><C:allcomp/></C:comp></C:calendar-data></D:prop></C:calendar-multiget>`}})
@@ -445,7 +460,9 @@ func c13Mutants(seeds []c13Seed, pairs bool) []c13Mutant {
 					add(s, "M4-allprop-beside-prop", "mutually-exclusive-elements", q)
 				}
 				// a propfind selects by exactly one of propname / allprop / prop (RFC 4918 14.20)
-				if n0.Local == "propfind" && n0.Space == indep.DAV && len(p) == 0 {
+				// (the same rule for the selection of a report: RFC 4791 9.5 / 9.10, RFC 6352 10.3 / 10.7)
+				isReportRoot := (n0.Space == nsCal && (n0.Local == "calendar-query" || n0.Local == "calendar-multiget")) || (n0.Space == nsCard && (n0.Local == "addressbook-query" || n0.Local == "addressbook-multiget"))
+				if ((n0.Local == "propfind" && n0.Space == indep.DAV) || isReportRoot) && len(p) == 0 {
 					have := ""
 					for _, k := range []string{"propname", "allprop", "prop"} {
 						if n0.First(indep.DAV, k) != nil {
